@@ -155,8 +155,9 @@ def Disk.fresh : Disk := ⟨Files.empty, [], []⟩
 
 /-! ## class predicates of the open findings (evaluated by the driver on the harness' inputs) -/
 
-/-- F33: some pipe's position file is the registry file -/
-def nameCollision (ps : List PPipe) : Bool := ps.any (fun p => decide (pipeInfoPath p.cfg.name = pipesDat))
+/-- F33: some pipe's position file is the registry file (or its temp file — no name maps there, `pipe….dat` ≠ `pipes.dat.tmp`) -/
+def nameCollision (ps : List PPipe) : Bool :=
+  ps.any (fun p => decide (pipeInfoPath p.cfg.name = pipesDat) || decide (pipeInfoPath p.cfg.name = pipesTmp))
 
 /-- F07: some pipe of the running server is not in the registry file on disk -/
 def pipeDefsNotOnDisk (K : Codecs) (m : Mem) (f : Files) : Bool :=
